@@ -86,65 +86,9 @@ fn count(ds: &Vec<crate::diagnostics::Diagnostic>, code: &str) -> usize {
     n
 }
 
-//@ prop: C04
-//@ family: K04-enum-bounds
-//@ tier: quick
-//@ functions: validators::enums::backing_type_bounds (check_bounds), Enum::enumerators, Enumerator::value, TypeRef<Primitive>::deref, Primitive::numeric_bounds
-//@ inst: hand-built Enum with exactly 1 enumerator; underlying type None or a Patched TypeRef<Primitive> of symbolic kind (all 16)
-//@ inputs: underlying: none | any of the 16 primitive kinds; the enumerator value: any i128; implicit/explicit form symbolic
-//@ oracle: E020 (value out of bounds) exactly when the value lies outside the range the language rule gives for the underlying type (0..=2^31-1 without one; -2^(n-1)..=2^(n-1)-1 / 0..=2^n-1, n = 62 for the var*62 kinds); nothing for non-integral kinds; nothing else
-//@ stubs: std::fmt::format -> empty string
-//@ bound: unwind 6 (4-byte code compare); 1 enumerator (the number of diagnostics pushed must stay 0..1: a data-dependent position in the diagnostics vector costs > 10 GB)
-#[kani::proof]
-#[kani::unwind(6)]
-#[kani::stub(std::fmt::format, stub_format)]
-fn k04_enum_value_bounds() {
-    let has_underlying: bool = kani::any();
-    let k: u8 = kani::any();
-    kani::assume(k < 16);
-    let v0: i128 = kani::any();
-    let ex: bool = kani::any();
-    let prim = OwnedPtr::new(kind(k));
-    let e0 = enumerator(v0, ex);
-    let mut enumerators = Vec::with_capacity(1);
-    enumerators.push(e0.downgrade());
-    let enum_def = Enum {
-        identifier: Identifier { value: String::new(), span: sp() },
-        enumerators,
-        underlying: if has_underlying {
-            Some(TypeRef { definition: TypeRefDefinition::Patched(prim.downgrade()), is_optional: false, scope: Scope::default(), attributes: Vec::new(), span: sp() })
-        } else {
-            None
-        },
-        is_compact: false,
-        is_unchecked: false,
-        scope: Scope::default(),
-        attributes: Vec::new(),
-        comment: None,
-        span: sp(),
-    };
-    let mut diagnostics = Diagnostics::verif_with_capacity(2);
-    backing_type_bounds(&enum_def, &mut diagnostics);
-    let kk = if has_underlying { Some(k) } else { None };
-    let want = !in_rule_range(v0, kk);
-    kani::cover!(!has_underlying && v0 == 2147483648, "no underlying type: 2^31 reachable");
-    kani::cover!(!has_underlying && v0 == 2147483647, "no underlying type: 2^31-1 reachable");
-    kani::cover!(has_underlying && k == 11 && v0 == -2305843009213693953, "varint62: -2^61-1 reachable");
-    kani::cover!(has_underlying && k == 11 && v0 == -2305843009213693952, "varint62: -2^61 reachable");
-    kani::cover!(has_underlying && k == 10 && v0 == 18446744073709551615, "uint64: 2^64-1 reachable");
-    kani::cover!(has_underlying && k == 14, "non-integral underlying kind reachable");
-    assert!(diagnostics.has_errors() == want, "an enumerator is diagnosed exactly when its value is outside the underlying type's range");
-    let ds = diagnostics.into_inner();
-    assert!(ds.len() == want as usize, "exactly one diagnostic per offending enumerator, none otherwise");
-    if want {
-        assert!(ds[0].code() == "E020", "the diagnostic is E020 (enumerator value out of bounds)");
-    }
-    core::mem::forget(ds);
-    core::mem::forget(enum_def);
-    core::mem::forget(e0);
-    core::mem::forget(prim);
+fn stub_random_state() -> std::hash::RandomState {
+    unsafe { core::mem::transmute::<(u64, u64), std::hash::RandomState>((0, 0)) }
 }
-
 fn enum_with(prim: &OwnedPtr<Primitive>, e0: &OwnedPtr<Enumerator>, has_underlying: bool, optional: bool, compact: bool, unchecked: bool, empty: bool) -> Enum {
     let mut enumerators = Vec::with_capacity(1);
     if !empty {
@@ -166,103 +110,6 @@ fn enum_with(prim: &OwnedPtr<Primitive>, e0: &OwnedPtr<Enumerator>, has_underlyi
         span: sp(),
     }
 }
-
-//@ prop: C04
-//@ family: K04-enum-flags
-//@ tier: quick
-//@ functions: validators::enums::{allowed_underlying_types, underlying_type_cannot_be_optional, nonempty_if_checked} (each run on a fresh pre-sized Diagnostics, selected symbolically)
-//@ inst: hand-built Enum with 0 or 1 enumerators; underlying none | Patched TypeRef<Primitive> of symbolic kind (16)
-//@ inputs: which rule; is_compact, is_unchecked, underlying present / kind / optional, empty or not
-//@ oracle: E009 iff underlying present and not integral; E007 iff underlying present and optional; E008 iff checked and empty; exactly one diagnostic then, none otherwise
-//@ stubs: std::fmt::format -> empty string
-//@ bound: unwind 6; each rule pushes at most one diagnostic (a data-dependent position in the diagnostics vector costs > 10 GB)
-#[kani::proof]
-#[kani::unwind(6)]
-#[kani::stub(std::fmt::format, stub_format)]
-fn k04_enum_flags() {
-    let has_underlying: bool = kani::any();
-    let k: u8 = kani::any();
-    kani::assume(k < 16);
-    let optional: bool = kani::any();
-    let compact: bool = kani::any();
-    let unchecked: bool = kani::any();
-    let empty: bool = kani::any();
-    let which: u8 = kani::any();
-    kani::assume(which < 3);
-    let prim = OwnedPtr::new(kind(k));
-    let e0 = enumerator(0, false);
-    let enum_def = enum_with(&prim, &e0, has_underlying, optional, compact, unchecked, empty);
-    let mut diagnostics = Diagnostics::verif_with_capacity(2);
-    let (want, code) = if which == 0 {
-        allowed_underlying_types(&enum_def, &mut diagnostics);
-        (has_underlying && rule(k).is_none(), "E009")
-    } else if which == 1 {
-        underlying_type_cannot_be_optional(&enum_def, &mut diagnostics);
-        (has_underlying && optional, "E007")
-    } else {
-        nonempty_if_checked(&enum_def, &mut diagnostics);
-        (!unchecked && empty, "E008")
-    };
-    kani::cover!(which == 0 && want && k == 15, "string underlying type diagnosed reachable");
-    kani::cover!(which == 1 && want, "optional underlying type diagnosed reachable");
-    kani::cover!(which == 2 && want, "empty checked enum diagnosed reachable");
-    kani::cover!(which == 2 && !want && empty, "empty unchecked enum accepted reachable");
-    let ds = diagnostics.into_inner();
-    assert!(ds.len() == want as usize, "the rule is diagnosed exactly when it is violated");
-    if want {
-        assert!(ds[0].code() == code, "with the code that belongs to the rule");
-    }
-    core::mem::forget(ds);
-    core::mem::forget(enum_def);
-    core::mem::forget(e0);
-    core::mem::forget(prim);
-}
-
-//@ prop: C04
-//@ family: K04-enum-flags
-//@ tier: quick
-//@ functions: validators::enums::check_compact_modifier
-//@ inst: hand-built Enum, one enumerator; two concrete layouts selected symbolically: (underlying present, checked) and (no underlying, unchecked symbolic)
-//@ inputs: is_compact; underlying kind; is_unchecked
-//@ oracle: "compact enums neither unchecked nor backed": E036 iff compact and (backed or unchecked)
-//@ stubs: std::fmt::format -> empty string
-//@ bound: unwind 6; at most one diagnostic per layout
-#[kani::proof]
-#[kani::unwind(6)]
-#[kani::stub(std::fmt::format, stub_format)]
-fn k04_enum_compact() {
-    let k: u8 = kani::any();
-    kani::assume(k < 16);
-    let compact: bool = kani::any();
-    let unchecked: bool = kani::any();
-    let backed_layout: bool = kani::any();
-    let prim = OwnedPtr::new(kind(k));
-    let e0 = enumerator(0, false);
-    let mut diagnostics = Diagnostics::verif_with_capacity(2);
-    let want;
-    let enum_def;
-    if backed_layout {
-        enum_def = enum_with(&prim, &e0, true, false, compact, false, false);
-        want = compact;
-    } else {
-        enum_def = enum_with(&prim, &e0, false, false, compact, unchecked, false);
-        want = compact && unchecked;
-    }
-    check_compact_modifier(&enum_def, &mut diagnostics);
-    kani::cover!(backed_layout && want, "compact backed enum diagnosed reachable");
-    kani::cover!(!backed_layout && want, "compact unchecked enum diagnosed reachable");
-    kani::cover!(!backed_layout && compact && !unchecked, "plain compact enum accepted reachable");
-    let ds = diagnostics.into_inner();
-    assert!(ds.len() == want as usize, "a compact enum is diagnosed exactly when it is backed or unchecked");
-    if want {
-        assert!(ds[0].code() == "E036", "with E036 (cannot be compact)");
-    }
-    core::mem::forget(ds);
-    core::mem::forget(enum_def);
-    core::mem::forget(e0);
-    core::mem::forget(prim);
-}
-
 fn a_field(tagged: bool, tag: u32) -> OwnedPtr<Field> {
     OwnedPtr::new(Field {
         identifier: Identifier { value: String::new(), span: sp() },
@@ -304,56 +151,549 @@ fn enumerator_with_fields(layout: u8, f: &OwnedPtr<Field>) -> OwnedPtr<Enumerato
     })
 }
 
+// All harnesses below go through the PUBLIC rule entry point validate_enum (all eight enum rules in sequence), so that a
+// refactoring that moves logic between the private rule functions cannot raise a false alarm and a rule that is no
+// longer called is noticed.  Flags and kinds are concrete per case (6.2); enumerator / tag values are symbolic.
+macro_rules! bounds_case {
+    ($has_underlying:expr, $prim:expr, $k:expr) => {{
+        let v0: i128 = kani::any();
+        let ex: bool = kani::any();
+        let prim = OwnedPtr::new($prim);
+        let e0 = enumerator(v0, ex);
+        let enum_def = enum_with(&prim, &e0, $has_underlying, false, false, false, false);
+        let mut diagnostics = Diagnostics::verif_with_capacity(2);
+        validate_enum(&enum_def, &mut diagnostics);
+        let kk: Option<u8> = if $has_underlying { Some($k) } else { None };
+        let want = !in_rule_range(v0, kk);
+        kani::cover!(want && v0 > 0, "value above the range reachable");
+        kani::cover!(want && v0 < 0, "value below the range reachable");
+        kani::cover!(!want, "value inside the range reachable");
+        let ds = diagnostics.into_inner();
+        assert!(ds.len() == want as usize, "an enumerator is diagnosed exactly when its value is outside the underlying type's range");
+        if want {
+            assert!(ds[0].code() == "E020", "with E020 (enumerator value out of bounds)");
+        }
+        core::mem::forget(ds);
+        core::mem::forget(enum_def);
+        core::mem::forget(e0);
+        core::mem::forget(prim);
+    }};
+}
+
 //@ prop: C04
-//@ family: K04-enum-fields
+//@ family: K04-enum-bounds
 //@ tier: quick
-//@ functions: validators::enums::cannot_contain_fields, validators::enums::compact_enums_cannot_contain_tags, Enumerator::fields
-//@ inst: hand-built Enum with one enumerator whose field list is absent / empty / one field (three concrete layouts, symbolic selector); underlying uint8 for the first rule, none for the second
-//@ inputs: which rule; field-list layout; is_compact; the field tagged or not (any u32)
-//@ oracle: "no fields under an underlying type": E035 iff the enumerator has a field list (even an empty one); "compact types untagged": E015 iff compact and the field is tagged; nothing else
-//@ stubs: std::fmt::format -> empty string
-//@ bound: unwind 6; at most one diagnostic
+//@ functions: validators::enums::validate_enum (public rule entry: all eight enum rules), backing_type_bounds, enumerator_values_are_unique, Primitive::numeric_bounds, Enum::enumerators, Enumerator::value
+//@ inst: hand-built checked, non-compact Enum with exactly 1 enumerator; underlying type: none
+//@ inputs: the enumerator value: any i128; implicit / explicit form
+//@ oracle: E020 exactly when the value lies outside no underlying type: 0 ..= 2^31-1 (range written from the language rule, not from numeric_bounds); no other diagnostic
+//@ stubs: std::fmt::format -> empty string; std::hash::RandomState::new -> fixed keys (the uniqueness rule builds a HashMap)
+//@ bound: unwind 6; 1 enumerator
+//@ timeout: 900
 #[kani::proof]
 #[kani::unwind(6)]
 #[kani::stub(std::fmt::format, stub_format)]
-fn k04_enum_fields_rules() {
-    let layout: u8 = kani::any();
-    kani::assume(layout < 3);
+#[kani::stub(std::hash::RandomState::new, stub_random_state)]
+fn k04_enum_bounds_none() {
+    bounds_case!(false, Primitive::UInt8, 0u8)
+}
+
+//@ prop: C04
+//@ family: K04-enum-bounds
+//@ tier: quick
+//@ functions: validators::enums::validate_enum (public rule entry: all eight enum rules), backing_type_bounds, enumerator_values_are_unique, Primitive::numeric_bounds, Enum::enumerators, Enumerator::value
+//@ inst: hand-built checked, non-compact Enum with exactly 1 enumerator; underlying type: int8
+//@ inputs: the enumerator value: any i128; implicit / explicit form
+//@ oracle: E020 exactly when the value lies outside -2^7 ..= 2^7-1 (range written from the language rule, not from numeric_bounds); no other diagnostic
+//@ stubs: std::fmt::format -> empty string; std::hash::RandomState::new -> fixed keys (the uniqueness rule builds a HashMap)
+//@ bound: unwind 6; 1 enumerator
+//@ timeout: 900
+#[kani::proof]
+#[kani::unwind(6)]
+#[kani::stub(std::fmt::format, stub_format)]
+#[kani::stub(std::hash::RandomState::new, stub_random_state)]
+fn k04_enum_bounds_int8() {
+    bounds_case!(true, Primitive::Int8, 1u8)
+}
+
+//@ prop: C04
+//@ family: K04-enum-bounds
+//@ tier: thorough
+//@ functions: validators::enums::validate_enum (public rule entry: all eight enum rules), backing_type_bounds, enumerator_values_are_unique, Primitive::numeric_bounds, Enum::enumerators, Enumerator::value
+//@ inst: hand-built checked, non-compact Enum with exactly 1 enumerator; underlying type: uint8
+//@ inputs: the enumerator value: any i128; implicit / explicit form
+//@ oracle: E020 exactly when the value lies outside 0 ..= 2^8-1 (range written from the language rule, not from numeric_bounds); no other diagnostic
+//@ stubs: std::fmt::format -> empty string; std::hash::RandomState::new -> fixed keys (the uniqueness rule builds a HashMap)
+//@ bound: unwind 6; 1 enumerator
+//@ timeout: 900
+#[kani::proof]
+#[kani::unwind(6)]
+#[kani::stub(std::fmt::format, stub_format)]
+#[kani::stub(std::hash::RandomState::new, stub_random_state)]
+fn k04_enum_bounds_uint8() {
+    bounds_case!(true, Primitive::UInt8, 2u8)
+}
+
+//@ prop: C04
+//@ family: K04-enum-bounds
+//@ tier: thorough
+//@ functions: validators::enums::validate_enum (public rule entry: all eight enum rules), backing_type_bounds, enumerator_values_are_unique, Primitive::numeric_bounds, Enum::enumerators, Enumerator::value
+//@ inst: hand-built checked, non-compact Enum with exactly 1 enumerator; underlying type: int16
+//@ inputs: the enumerator value: any i128; implicit / explicit form
+//@ oracle: E020 exactly when the value lies outside -2^15 ..= 2^15-1 (range written from the language rule, not from numeric_bounds); no other diagnostic
+//@ stubs: std::fmt::format -> empty string; std::hash::RandomState::new -> fixed keys (the uniqueness rule builds a HashMap)
+//@ bound: unwind 6; 1 enumerator
+//@ timeout: 900
+#[kani::proof]
+#[kani::unwind(6)]
+#[kani::stub(std::fmt::format, stub_format)]
+#[kani::stub(std::hash::RandomState::new, stub_random_state)]
+fn k04_enum_bounds_int16() {
+    bounds_case!(true, Primitive::Int16, 3u8)
+}
+
+//@ prop: C04
+//@ family: K04-enum-bounds
+//@ tier: thorough
+//@ functions: validators::enums::validate_enum (public rule entry: all eight enum rules), backing_type_bounds, enumerator_values_are_unique, Primitive::numeric_bounds, Enum::enumerators, Enumerator::value
+//@ inst: hand-built checked, non-compact Enum with exactly 1 enumerator; underlying type: uint16
+//@ inputs: the enumerator value: any i128; implicit / explicit form
+//@ oracle: E020 exactly when the value lies outside 0 ..= 2^16-1 (range written from the language rule, not from numeric_bounds); no other diagnostic
+//@ stubs: std::fmt::format -> empty string; std::hash::RandomState::new -> fixed keys (the uniqueness rule builds a HashMap)
+//@ bound: unwind 6; 1 enumerator
+//@ timeout: 900
+#[kani::proof]
+#[kani::unwind(6)]
+#[kani::stub(std::fmt::format, stub_format)]
+#[kani::stub(std::hash::RandomState::new, stub_random_state)]
+fn k04_enum_bounds_uint16() {
+    bounds_case!(true, Primitive::UInt16, 4u8)
+}
+
+//@ prop: C04
+//@ family: K04-enum-bounds
+//@ tier: thorough
+//@ functions: validators::enums::validate_enum (public rule entry: all eight enum rules), backing_type_bounds, enumerator_values_are_unique, Primitive::numeric_bounds, Enum::enumerators, Enumerator::value
+//@ inst: hand-built checked, non-compact Enum with exactly 1 enumerator; underlying type: int32
+//@ inputs: the enumerator value: any i128; implicit / explicit form
+//@ oracle: E020 exactly when the value lies outside -2^31 ..= 2^31-1 (range written from the language rule, not from numeric_bounds); no other diagnostic
+//@ stubs: std::fmt::format -> empty string; std::hash::RandomState::new -> fixed keys (the uniqueness rule builds a HashMap)
+//@ bound: unwind 6; 1 enumerator
+//@ timeout: 900
+#[kani::proof]
+#[kani::unwind(6)]
+#[kani::stub(std::fmt::format, stub_format)]
+#[kani::stub(std::hash::RandomState::new, stub_random_state)]
+fn k04_enum_bounds_int32() {
+    bounds_case!(true, Primitive::Int32, 5u8)
+}
+
+//@ prop: C04
+//@ family: K04-enum-bounds
+//@ tier: thorough
+//@ functions: validators::enums::validate_enum (public rule entry: all eight enum rules), backing_type_bounds, enumerator_values_are_unique, Primitive::numeric_bounds, Enum::enumerators, Enumerator::value
+//@ inst: hand-built checked, non-compact Enum with exactly 1 enumerator; underlying type: uint32
+//@ inputs: the enumerator value: any i128; implicit / explicit form
+//@ oracle: E020 exactly when the value lies outside 0 ..= 2^32-1 (range written from the language rule, not from numeric_bounds); no other diagnostic
+//@ stubs: std::fmt::format -> empty string; std::hash::RandomState::new -> fixed keys (the uniqueness rule builds a HashMap)
+//@ bound: unwind 6; 1 enumerator
+//@ timeout: 900
+#[kani::proof]
+#[kani::unwind(6)]
+#[kani::stub(std::fmt::format, stub_format)]
+#[kani::stub(std::hash::RandomState::new, stub_random_state)]
+fn k04_enum_bounds_uint32() {
+    bounds_case!(true, Primitive::UInt32, 6u8)
+}
+
+//@ prop: C04
+//@ family: K04-enum-bounds
+//@ tier: quick
+//@ functions: validators::enums::validate_enum (public rule entry: all eight enum rules), backing_type_bounds, enumerator_values_are_unique, Primitive::numeric_bounds, Enum::enumerators, Enumerator::value
+//@ inst: hand-built checked, non-compact Enum with exactly 1 enumerator; underlying type: varint32
+//@ inputs: the enumerator value: any i128; implicit / explicit form
+//@ oracle: E020 exactly when the value lies outside -2^31 ..= 2^31-1 (range written from the language rule, not from numeric_bounds); no other diagnostic
+//@ stubs: std::fmt::format -> empty string; std::hash::RandomState::new -> fixed keys (the uniqueness rule builds a HashMap)
+//@ bound: unwind 6; 1 enumerator
+//@ timeout: 900
+#[kani::proof]
+#[kani::unwind(6)]
+#[kani::stub(std::fmt::format, stub_format)]
+#[kani::stub(std::hash::RandomState::new, stub_random_state)]
+fn k04_enum_bounds_varint32() {
+    bounds_case!(true, Primitive::VarInt32, 7u8)
+}
+
+//@ prop: C04
+//@ family: K04-enum-bounds
+//@ tier: thorough
+//@ functions: validators::enums::validate_enum (public rule entry: all eight enum rules), backing_type_bounds, enumerator_values_are_unique, Primitive::numeric_bounds, Enum::enumerators, Enumerator::value
+//@ inst: hand-built checked, non-compact Enum with exactly 1 enumerator; underlying type: varuint32
+//@ inputs: the enumerator value: any i128; implicit / explicit form
+//@ oracle: E020 exactly when the value lies outside 0 ..= 2^32-1 (range written from the language rule, not from numeric_bounds); no other diagnostic
+//@ stubs: std::fmt::format -> empty string; std::hash::RandomState::new -> fixed keys (the uniqueness rule builds a HashMap)
+//@ bound: unwind 6; 1 enumerator
+//@ timeout: 900
+#[kani::proof]
+#[kani::unwind(6)]
+#[kani::stub(std::fmt::format, stub_format)]
+#[kani::stub(std::hash::RandomState::new, stub_random_state)]
+fn k04_enum_bounds_varuint32() {
+    bounds_case!(true, Primitive::VarUInt32, 8u8)
+}
+
+//@ prop: C04
+//@ family: K04-enum-bounds
+//@ tier: thorough
+//@ functions: validators::enums::validate_enum (public rule entry: all eight enum rules), backing_type_bounds, enumerator_values_are_unique, Primitive::numeric_bounds, Enum::enumerators, Enumerator::value
+//@ inst: hand-built checked, non-compact Enum with exactly 1 enumerator; underlying type: int64
+//@ inputs: the enumerator value: any i128; implicit / explicit form
+//@ oracle: E020 exactly when the value lies outside -2^63 ..= 2^63-1 (range written from the language rule, not from numeric_bounds); no other diagnostic
+//@ stubs: std::fmt::format -> empty string; std::hash::RandomState::new -> fixed keys (the uniqueness rule builds a HashMap)
+//@ bound: unwind 6; 1 enumerator
+//@ timeout: 900
+#[kani::proof]
+#[kani::unwind(6)]
+#[kani::stub(std::fmt::format, stub_format)]
+#[kani::stub(std::hash::RandomState::new, stub_random_state)]
+fn k04_enum_bounds_int64() {
+    bounds_case!(true, Primitive::Int64, 9u8)
+}
+
+//@ prop: C04
+//@ family: K04-enum-bounds
+//@ tier: quick
+//@ functions: validators::enums::validate_enum (public rule entry: all eight enum rules), backing_type_bounds, enumerator_values_are_unique, Primitive::numeric_bounds, Enum::enumerators, Enumerator::value
+//@ inst: hand-built checked, non-compact Enum with exactly 1 enumerator; underlying type: uint64
+//@ inputs: the enumerator value: any i128; implicit / explicit form
+//@ oracle: E020 exactly when the value lies outside 0 ..= 2^64-1 (range written from the language rule, not from numeric_bounds); no other diagnostic
+//@ stubs: std::fmt::format -> empty string; std::hash::RandomState::new -> fixed keys (the uniqueness rule builds a HashMap)
+//@ bound: unwind 6; 1 enumerator
+//@ timeout: 900
+#[kani::proof]
+#[kani::unwind(6)]
+#[kani::stub(std::fmt::format, stub_format)]
+#[kani::stub(std::hash::RandomState::new, stub_random_state)]
+fn k04_enum_bounds_uint64() {
+    bounds_case!(true, Primitive::UInt64, 10u8)
+}
+
+//@ prop: C04
+//@ family: K04-enum-bounds
+//@ tier: quick
+//@ functions: validators::enums::validate_enum (public rule entry: all eight enum rules), backing_type_bounds, enumerator_values_are_unique, Primitive::numeric_bounds, Enum::enumerators, Enumerator::value
+//@ inst: hand-built checked, non-compact Enum with exactly 1 enumerator; underlying type: varint62
+//@ inputs: the enumerator value: any i128; implicit / explicit form
+//@ oracle: E020 exactly when the value lies outside -2^61 ..= 2^61-1 (range written from the language rule, not from numeric_bounds); no other diagnostic
+//@ stubs: std::fmt::format -> empty string; std::hash::RandomState::new -> fixed keys (the uniqueness rule builds a HashMap)
+//@ bound: unwind 6; 1 enumerator
+//@ timeout: 900
+#[kani::proof]
+#[kani::unwind(6)]
+#[kani::stub(std::fmt::format, stub_format)]
+#[kani::stub(std::hash::RandomState::new, stub_random_state)]
+fn k04_enum_bounds_varint62() {
+    bounds_case!(true, Primitive::VarInt62, 11u8)
+}
+
+//@ prop: C04
+//@ family: K04-enum-bounds
+//@ tier: quick
+//@ functions: validators::enums::validate_enum (public rule entry: all eight enum rules), backing_type_bounds, enumerator_values_are_unique, Primitive::numeric_bounds, Enum::enumerators, Enumerator::value
+//@ inst: hand-built checked, non-compact Enum with exactly 1 enumerator; underlying type: varuint62
+//@ inputs: the enumerator value: any i128; implicit / explicit form
+//@ oracle: E020 exactly when the value lies outside 0 ..= 2^62-1 (range written from the language rule, not from numeric_bounds); no other diagnostic
+//@ stubs: std::fmt::format -> empty string; std::hash::RandomState::new -> fixed keys (the uniqueness rule builds a HashMap)
+//@ bound: unwind 6; 1 enumerator
+//@ timeout: 900
+#[kani::proof]
+#[kani::unwind(6)]
+#[kani::stub(std::fmt::format, stub_format)]
+#[kani::stub(std::hash::RandomState::new, stub_random_state)]
+fn k04_enum_bounds_varuint62() {
+    bounds_case!(true, Primitive::VarUInt62, 12u8)
+}
+
+// Flag rules on EMPTY enums (an enumerator makes the uniqueness rule insert into a HashMap: ~400 k steps and 5-12 GB per
+// case; "non-empty checked enums are accepted" is what the K04-enum-bounds harnesses show).
+macro_rules! flags_case {
+    ($prim:expr, $has_underlying:expr, $integral:expr, $optional:expr, $compact:expr, $unchecked:expr) => {{
+        let prim = OwnedPtr::new($prim);
+        let e0 = enumerator(0, false);
+        let enum_def = enum_with(&prim, &e0, $has_underlying, $optional, $compact, $unchecked, true);
+        let mut diagnostics = Diagnostics::verif_with_capacity(6);
+        validate_enum(&enum_def, &mut diagnostics);
+        let ds = diagnostics.into_inner();
+        let e009 = ($has_underlying && !$integral) as usize;
+        let e007 = ($has_underlying && $optional) as usize;
+        let e008 = (!$unchecked) as usize;
+        let e036 = ($compact && $has_underlying) as usize + ($compact && $unchecked) as usize;
+        assert!(count(&ds, "E009") == e009, "a non-integral underlying type is diagnosed, an integral one is not");
+        assert!(count(&ds, "E007") == e007, "an optional underlying type is diagnosed, a plain one is not");
+        assert!(count(&ds, "E008") == e008, "an empty enum is diagnosed exactly when it is checked");
+        assert!(count(&ds, "E036") == e036, "a compact enum is diagnosed once if backed and once if unchecked");
+        assert!(ds.len() == e009 + e007 + e008 + e036, "no other diagnostic is produced");
+        core::mem::forget(ds);
+        core::mem::forget(enum_def);
+        core::mem::forget(e0);
+        core::mem::forget(prim);
+    }};
+}
+
+//@ prop: C04
+//@ family: K04-enum-flags
+//@ tier: quick
+//@ functions: validators::enums::validate_enum (public rule entry), allowed_underlying_types, underlying_type_cannot_be_optional, nonempty_if_checked, check_compact_modifier
+//@ inst: hand-built Enum without enumerators; no underlying type
+//@ inputs: all 4 combinations of (underlying optional,) compact, unchecked as concrete cases behind a symbolic selector (exhaustive for the flags)
+//@ oracle: the multiset of codes equals the rules: E009 iff underlying not integral; E007 iff underlying optional; E008 iff checked (the enum is empty); E036 once if compact and backed plus once if compact and unchecked; nothing else
+//@ stubs: std::fmt::format -> empty string; std::hash::RandomState::new -> fixed keys
+//@ bound: unwind 6; flags enumerated, so every diagnostic lands at a concrete position
+//@ timeout: 1500
+#[kani::proof]
+#[kani::unwind(6)]
+#[kani::stub(std::fmt::format, stub_format)]
+#[kani::stub(std::hash::RandomState::new, stub_random_state)]
+fn k04_enum_flags_none() {
+    let case: u8 = kani::any();
+    kani::assume(case < 4);
+    kani::cover!(case == 0, "first combination reachable");
+    kani::cover!(case == 3, "last combination reachable");
+    if case == 0 {
+        flags_case!(Primitive::UInt8, false, true, false, false, false)
+    } else if case == 1 {
+        flags_case!(Primitive::UInt8, false, true, false, false, true)
+    } else if case == 2 {
+        flags_case!(Primitive::UInt8, false, true, false, true, false)
+    } else {
+        flags_case!(Primitive::UInt8, false, true, false, true, true)
+    }
+}
+
+//@ prop: C04
+//@ family: K04-enum-flags
+//@ tier: quick
+//@ functions: validators::enums::validate_enum (public rule entry), allowed_underlying_types, underlying_type_cannot_be_optional, nonempty_if_checked, check_compact_modifier
+//@ inst: hand-built Enum without enumerators; underlying uint8 (integral)
+//@ inputs: all 8 combinations of (underlying optional,) compact, unchecked as concrete cases behind a symbolic selector (exhaustive for the flags)
+//@ oracle: the multiset of codes equals the rules: E009 iff underlying not integral; E007 iff underlying optional; E008 iff checked (the enum is empty); E036 once if compact and backed plus once if compact and unchecked; nothing else
+//@ stubs: std::fmt::format -> empty string; std::hash::RandomState::new -> fixed keys
+//@ bound: unwind 6; flags enumerated, so every diagnostic lands at a concrete position
+//@ timeout: 1500
+#[kani::proof]
+#[kani::unwind(6)]
+#[kani::stub(std::fmt::format, stub_format)]
+#[kani::stub(std::hash::RandomState::new, stub_random_state)]
+fn k04_enum_flags_uint8() {
+    let case: u8 = kani::any();
+    kani::assume(case < 8);
+    kani::cover!(case == 0, "first combination reachable");
+    kani::cover!(case == 7, "last combination reachable");
+    if case == 0 {
+        flags_case!(Primitive::UInt8, true, true, false, false, false)
+    } else if case == 1 {
+        flags_case!(Primitive::UInt8, true, true, false, false, true)
+    } else if case == 2 {
+        flags_case!(Primitive::UInt8, true, true, false, true, false)
+    } else if case == 3 {
+        flags_case!(Primitive::UInt8, true, true, false, true, true)
+    } else if case == 4 {
+        flags_case!(Primitive::UInt8, true, true, true, false, false)
+    } else if case == 5 {
+        flags_case!(Primitive::UInt8, true, true, true, false, true)
+    } else if case == 6 {
+        flags_case!(Primitive::UInt8, true, true, true, true, false)
+    } else {
+        flags_case!(Primitive::UInt8, true, true, true, true, true)
+    }
+}
+
+//@ prop: C04
+//@ family: K04-enum-flags
+//@ tier: quick
+//@ functions: validators::enums::validate_enum (public rule entry), allowed_underlying_types, underlying_type_cannot_be_optional, nonempty_if_checked, check_compact_modifier
+//@ inst: hand-built Enum without enumerators; underlying float32 (not integral)
+//@ inputs: all 8 combinations of (underlying optional,) compact, unchecked as concrete cases behind a symbolic selector (exhaustive for the flags)
+//@ oracle: the multiset of codes equals the rules: E009 iff underlying not integral; E007 iff underlying optional; E008 iff checked (the enum is empty); E036 once if compact and backed plus once if compact and unchecked; nothing else
+//@ stubs: std::fmt::format -> empty string; std::hash::RandomState::new -> fixed keys
+//@ bound: unwind 6; flags enumerated, so every diagnostic lands at a concrete position
+//@ timeout: 1500
+#[kani::proof]
+#[kani::unwind(6)]
+#[kani::stub(std::fmt::format, stub_format)]
+#[kani::stub(std::hash::RandomState::new, stub_random_state)]
+fn k04_enum_flags_float32() {
+    let case: u8 = kani::any();
+    kani::assume(case < 8);
+    kani::cover!(case == 0, "first combination reachable");
+    kani::cover!(case == 7, "last combination reachable");
+    if case == 0 {
+        flags_case!(Primitive::Float32, true, false, false, false, false)
+    } else if case == 1 {
+        flags_case!(Primitive::Float32, true, false, false, false, true)
+    } else if case == 2 {
+        flags_case!(Primitive::Float32, true, false, false, true, false)
+    } else if case == 3 {
+        flags_case!(Primitive::Float32, true, false, false, true, true)
+    } else if case == 4 {
+        flags_case!(Primitive::Float32, true, false, true, false, false)
+    } else if case == 5 {
+        flags_case!(Primitive::Float32, true, false, true, false, true)
+    } else if case == 6 {
+        flags_case!(Primitive::Float32, true, false, true, true, false)
+    } else {
+        flags_case!(Primitive::Float32, true, false, true, true, true)
+    }
+}
+
+//@ prop: C04
+//@ family: K04-enum-flags
+//@ tier: thorough
+//@ functions: validators::enums::validate_enum (public rule entry), allowed_underlying_types, underlying_type_cannot_be_optional, nonempty_if_checked, check_compact_modifier
+//@ inst: hand-built Enum without enumerators; underlying string (not integral)
+//@ inputs: all 8 combinations of (underlying optional,) compact, unchecked as concrete cases behind a symbolic selector (exhaustive for the flags)
+//@ oracle: the multiset of codes equals the rules: E009 iff underlying not integral; E007 iff underlying optional; E008 iff checked (the enum is empty); E036 once if compact and backed plus once if compact and unchecked; nothing else
+//@ stubs: std::fmt::format -> empty string; std::hash::RandomState::new -> fixed keys
+//@ bound: unwind 6; flags enumerated, so every diagnostic lands at a concrete position
+//@ timeout: 1500
+#[kani::proof]
+#[kani::unwind(6)]
+#[kani::stub(std::fmt::format, stub_format)]
+#[kani::stub(std::hash::RandomState::new, stub_random_state)]
+fn k04_enum_flags_string() {
+    let case: u8 = kani::any();
+    kani::assume(case < 8);
+    kani::cover!(case == 0, "first combination reachable");
+    kani::cover!(case == 7, "last combination reachable");
+    if case == 0 {
+        flags_case!(Primitive::String, true, false, false, false, false)
+    } else if case == 1 {
+        flags_case!(Primitive::String, true, false, false, false, true)
+    } else if case == 2 {
+        flags_case!(Primitive::String, true, false, false, true, false)
+    } else if case == 3 {
+        flags_case!(Primitive::String, true, false, false, true, true)
+    } else if case == 4 {
+        flags_case!(Primitive::String, true, false, true, false, false)
+    } else if case == 5 {
+        flags_case!(Primitive::String, true, false, true, false, true)
+    } else if case == 6 {
+        flags_case!(Primitive::String, true, false, true, true, false)
+    } else {
+        flags_case!(Primitive::String, true, false, true, true, true)
+    }
+}
+
+// Field rules need an enumerator, hence the HashMap insertion of the uniqueness rule: one concrete case per harness.
+macro_rules! fields_case {
+    ($backed:expr, $compact:expr, $layout:expr, $tagged:expr) => {{
+        let tag: u32 = kani::any();
+        let prim = OwnedPtr::new(Primitive::UInt8);
+        let f = a_field($tagged, tag);
+        let e0 = enumerator_with_fields($layout, &f);
+        let enum_def = enum_with(&prim, &e0, $backed, false, $compact, false, false);
+        let mut diagnostics = Diagnostics::verif_with_capacity(3);
+        validate_enum(&enum_def, &mut diagnostics);
+        let ds = diagnostics.into_inner();
+        let e035 = ($backed && $layout != 0) as usize;
+        let e015 = ($compact && $layout == 2 && $tagged) as usize;
+        let e036 = ($compact && $backed) as usize;
+        kani::cover!(tag == 0, "tag 0 reachable");
+        assert!(count(&ds, "E035") == e035, "a field list under an underlying type (even an empty one) is diagnosed; none otherwise");
+        assert!(count(&ds, "E015") == e015, "a tagged field in a compact enum is diagnosed; none otherwise");
+        assert!(ds.len() == e035 + e015 + e036, "no other diagnostic is produced");
+        core::mem::forget(ds);
+        core::mem::forget(enum_def);
+        core::mem::forget(e0);
+        core::mem::forget(f);
+        core::mem::forget(prim);
+    }};
+}
+
+//@ prop: C04
+//@ family: K04-enum-fields
+//@ tier: quick
+//@ functions: validators::enums::validate_enum (public rule entry), cannot_contain_fields, compact_enums_cannot_contain_tags, enumerator_values_are_unique, Enumerator::fields
+//@ inst: hand-built backed uint8 enum whose enumerator has an EMPTY field list
+//@ inputs: the tag value (any u32)
+//@ oracle: exactly: E035 (even an empty field list is a field list)
+//@ stubs: std::fmt::format -> empty string; std::hash::RandomState::new -> fixed keys
+//@ bound: unwind 6; one concrete case
+//@ timeout: 1500
+#[kani::proof]
+#[kani::unwind(6)]
+#[kani::stub(std::fmt::format, stub_format)]
+#[kani::stub(std::hash::RandomState::new, stub_random_state)]
+fn k04_enum_fields_backed_empty_list() {
+    fields_case!(true, false, 1, false)
+}
+
+//@ prop: C04
+//@ family: K04-enum-fields
+//@ tier: thorough
+//@ functions: validators::enums::validate_enum (public rule entry), cannot_contain_fields, compact_enums_cannot_contain_tags, enumerator_values_are_unique, Enumerator::fields
+//@ inst: hand-built backed uint8 enum with a plain enumerator
+//@ inputs: the tag value (any u32)
+//@ oracle: exactly: no diagnostic
+//@ stubs: std::fmt::format -> empty string; std::hash::RandomState::new -> fixed keys
+//@ bound: unwind 6; one concrete case
+//@ timeout: 1500
+#[kani::proof]
+#[kani::unwind(6)]
+#[kani::stub(std::fmt::format, stub_format)]
+#[kani::stub(std::hash::RandomState::new, stub_random_state)]
+fn k04_enum_fields_backed_no_list() {
+    fields_case!(true, false, 0, false)
+}
+
+//@ prop: C04
+//@ family: K04-enum-fields
+//@ tier: thorough
+//@ functions: validators::enums::validate_enum (public rule entry), cannot_contain_fields, compact_enums_cannot_contain_tags, enumerator_values_are_unique, Enumerator::fields
+//@ inst: hand-built backed uint8 enum whose enumerator has one field
+//@ inputs: the tag value (any u32)
+//@ oracle: exactly: E035
+//@ stubs: std::fmt::format -> empty string; std::hash::RandomState::new -> fixed keys
+//@ bound: unwind 6; one concrete case
+//@ timeout: 1500
+#[kani::proof]
+#[kani::unwind(6)]
+#[kani::stub(std::fmt::format, stub_format)]
+#[kani::stub(std::hash::RandomState::new, stub_random_state)]
+fn k04_enum_fields_backed_one_field() {
+    fields_case!(true, false, 2, false)
+}
+
+//@ prop: C04
+//@ family: K04-enum-fields
+//@ tier: quick
+//@ functions: validators::enums::compact_enums_cannot_contain_tags (called directly: through validate_enum the compact cases exceed 24 GB), Enumerator::fields, Member::is_tagged
+//@ inst: hand-built unbacked Enum, one enumerator with exactly one field (concrete shape)
+//@ inputs: is_compact; the field tagged or not (any u32)
+//@ oracle: "compact types untagged": E015 iff compact and the field is tagged; nothing else
+//@ stubs: std::fmt::format -> empty string
+//@ bound: unwind 3; at most one diagnostic. Trusted in addition: that validate_enum calls this rule (shown for the other rules by the harnesses above)
+#[kani::proof]
+#[kani::unwind(3)]
+#[kani::stub(std::fmt::format, stub_format)]
+fn k04_enum_compact_untagged() {
     let tagged: bool = kani::any();
     let tag: u32 = kani::any();
     let compact: bool = kani::any();
-    let first_rule: bool = kani::any();
     let prim = OwnedPtr::new(Primitive::UInt8);
     let f = a_field(tagged, tag);
-    let e0 = if layout == 0 {
-        enumerator_with_fields(0, &f)
-    } else if layout == 1 {
-        enumerator_with_fields(1, &f)
-    } else {
-        enumerator_with_fields(2, &f)
-    };
+    let e0 = enumerator_with_fields(2, &f);
+    let enum_def = enum_with(&prim, &e0, false, false, compact, false, false);
     let mut diagnostics = Diagnostics::verif_with_capacity(2);
-    let (want, code);
-    let enum_def;
-    if first_rule {
-        enum_def = enum_with(&prim, &e0, true, false, false, false, false);
-        cannot_contain_fields(&enum_def, &mut diagnostics);
-        want = layout != 0;
-        code = "E035";
-    } else {
-        enum_def = enum_with(&prim, &e0, false, false, compact, false, false);
-        compact_enums_cannot_contain_tags(&enum_def, &mut diagnostics);
-        want = compact && layout == 2 && tagged;
-        code = "E015";
-    }
-    kani::cover!(first_rule && layout == 1, "empty field list under an underlying type reachable");
-    kani::cover!(first_rule && layout == 0, "plain enumerator under an underlying type accepted reachable");
-    kani::cover!(!first_rule && want, "tagged field in a compact enum reachable");
-    kani::cover!(!first_rule && !compact && layout == 2 && tagged, "tagged field in an ordinary enum accepted reachable");
+    compact_enums_cannot_contain_tags(&enum_def, &mut diagnostics);
+    let want = compact && tagged;
+    kani::cover!(want && tag == 0, "compact enum with a field tagged 0 reachable");
+    kani::cover!(!compact && tagged, "tagged field in an ordinary enum accepted reachable");
     let ds = diagnostics.into_inner();
-    assert!(ds.len() == want as usize, "the rule is diagnosed exactly when it is violated");
+    assert!(ds.len() == want as usize, "a tagged field is diagnosed exactly when the enum is compact");
     if want {
-        assert!(ds[0].code() == code, "with the code that belongs to the rule");
+        let c = ds[0].code().as_bytes();
+        assert!(c.len() == 4 && c[0] == b'E' && c[1] == b'0' && c[2] == b'1' && c[3] == b'5', "with E015 (compact type cannot contain tagged fields)");
     }
     core::mem::forget(ds);
     core::mem::forget(enum_def);
@@ -361,3 +701,22 @@ fn k04_enum_fields_rules() {
     core::mem::forget(f);
     core::mem::forget(prim);
 }
+
+//@ prop: C04
+//@ family: K04-enum-fields
+//@ tier: thorough
+//@ functions: validators::enums::validate_enum (public rule entry), cannot_contain_fields, compact_enums_cannot_contain_tags, enumerator_values_are_unique, Enumerator::fields
+//@ inst: hand-built ordinary unbacked enum whose enumerator has one tagged field
+//@ inputs: the tag value (any u32)
+//@ oracle: exactly: no diagnostic
+//@ stubs: std::fmt::format -> empty string; std::hash::RandomState::new -> fixed keys
+//@ bound: unwind 6; one concrete case
+//@ timeout: 1500
+#[kani::proof]
+#[kani::unwind(6)]
+#[kani::stub(std::fmt::format, stub_format)]
+#[kani::stub(std::hash::RandomState::new, stub_random_state)]
+fn k04_enum_fields_plain_tagged() {
+    fields_case!(false, false, 2, true)
+}
+
